@@ -189,7 +189,25 @@ impl Ctx {
 
 // ------------------------------------------------------------------ hang watchdog
 
-type CaseMap = std::collections::HashMap<std::thread::ThreadId, (Instant, String)>;
+/// thread -> (start of the case, description, kernel thread id for CPU accounting)
+type CaseMap = std::collections::HashMap<std::thread::ThreadId, (Instant, String, u64)>;
+
+thread_local! {
+    /// The kernel's id of the calling thread (from `/proc/thread-self`), 0 if unknown.
+    static KERNEL_TID: u64 = std::fs::read_link("/proc/thread-self")
+        .ok()
+        .and_then(|p| p.file_name().and_then(|n| n.to_str()).and_then(|n| n.parse().ok()))
+        .unwrap_or(0);
+}
+
+/// CPU time (user + system, in clock ticks) a thread of this process has consumed so far.
+fn thread_cpu_ticks(tid: u64) -> Option<u64> {
+    let stat = std::fs::read_to_string(format!("/proc/self/task/{tid}/stat")).ok()?;
+    // the fields after the parenthesised command name: state is field 3, utime 14, stime 15
+    let rest = stat.rsplit_once(')')?.1;
+    let f: Vec<&str> = rest.split_whitespace().collect();
+    Some(f.get(11)?.parse::<u64>().ok()? + f.get(12)?.parse::<u64>().ok()?)
+}
 static CURRENT_CASES: std::sync::OnceLock<Mutex<CaseMap>> = std::sync::OnceLock::new();
 
 fn current_cases() -> &'static Mutex<CaseMap> {
@@ -203,7 +221,7 @@ pub fn case_guard(desc: String) -> CaseGuard {
     current_cases()
         .lock()
         .unwrap()
-        .insert(std::thread::current().id(), (Instant::now(), desc));
+        .insert(std::thread::current().id(), (Instant::now(), desc, KERNEL_TID.with(|t| *t)));
     CaseGuard
 }
 
@@ -218,26 +236,45 @@ impl Drop for CaseGuard {
 /// Seconds a single execution may take before it is judged a hang.
 pub const HANG_SECS: u64 = 30;
 
-/// Starts a watchdog thread: a single execution of the subject that makes no
-/// progress for `HANG_SECS` (a loop inside one poll cannot be interrupted by
-/// the step horizon) is reported as a violation (non-termination) and the
-/// process exits with status 1.
+/// Starts a watchdog thread: a single execution of the subject that is still running after it
+/// has consumed `HANG_SECS` of *CPU time* (a loop inside one poll cannot be interrupted by the step
+/// horizon) is reported as a violation (non-termination) and the process exits with status 1.
+/// CPU time of the executing thread, not wall-clock time: on a busy machine a thread can be kept
+/// off the processors for a long time without the subject looping (seen once in a thorough run
+/// that shared the machine with four other jobs). Where the kernel's accounting cannot be read,
+/// ten times the limit in wall-clock time is used.
 fn start_watchdog(id: &'static str, level: &'static str, tier: Tier) {
     std::thread::spawn(move || {
+        let ticks_per_sec = 100u64; // USER_HZ
+        // (thread, start of the case) -> CPU ticks of the thread when the case was first seen
+        let mut first_seen: std::collections::HashMap<(std::thread::ThreadId, Instant), Option<u64>> = Default::default();
         loop {
             std::thread::sleep(std::time::Duration::from_secs(1));
-            let stuck = current_cases()
-                .lock()
-                .unwrap()
-                .values()
-                .find(|(t, _)| t.elapsed().as_secs() >= HANG_SECS)
-                .map(|(_, d)| d.clone());
+            let active: Vec<(std::thread::ThreadId, Instant, String, u64)> =
+                current_cases().lock().unwrap().iter().map(|(t, (s, d, k))| (*t, *s, d.clone(), *k)).collect();
+            first_seen.retain(|(t, s), _| active.iter().any(|(t2, s2, _, _)| t2 == t && s2 == s));
+            let mut stuck = None;
+            for (t, start, desc, ktid) in &active {
+                if start.elapsed().as_secs() < HANG_SECS {
+                    continue;
+                }
+                let now = if *ktid != 0 { thread_cpu_ticks(*ktid) } else { None };
+                let base = *first_seen.entry((*t, *start)).or_insert(now);
+                let hung = match (base, now) {
+                    (Some(b), Some(n)) => n.saturating_sub(b) >= HANG_SECS * ticks_per_sec,
+                    _ => start.elapsed().as_secs() >= 10 * HANG_SECS,
+                };
+                if hung {
+                    stuck = Some(desc.clone());
+                    break;
+                }
+            }
             if let Some(desc) = stuck {
                 let dir = verif_dir().join("replays").join(id);
                 let _ = std::fs::create_dir_all(&dir);
                 let path = dir.join("hang.json");
                 let case: Value = serde_json::from_str(&desc).unwrap_or(json!({"description": desc}));
-                let body = json!({"property": id, "key": "hang", "what": format!("a single execution did not finish within {HANG_SECS} s"), "case": case});
+                let body = json!({"property": id, "key": "hang", "what": format!("a single execution did not finish within {HANG_SECS} s of CPU time"), "case": case});
                 let _ = std::fs::write(&path, serde_json::to_string_pretty(&body).unwrap());
                 println!("VIOLATION property={id} replay={}", path.display());
                 println!("  key=hang what=a single execution of the subject did not finish within {HANG_SECS} s");
